@@ -625,7 +625,7 @@ fn process_request_obj(request: &Request, dbs: &Arc<Databases>, client: &mut Cli
         } => {
             log::info!("Processing resolve for {} to {} ", key, value);
             // Replica set or admin auth resolving
-            if client.auth.load(Ordering::SeqCst) {
+            let response = if client.auth.load(Ordering::SeqCst) {
                 apply_to_database_name(
                     dbs,
                     client,
@@ -657,9 +657,14 @@ fn process_request_obj(request: &Request, dbs: &Arc<Databases>, client: &mut Cli
                         }
                     },
                     &PermissionKind::Read,
-                );
+                )
             } else {
-                apply_to_database(&dbs, &client, &|db| {
+                // Clients resolve with the access rules of a write to that key
+                apply_if_safe_access(
+                    &dbs,
+                    &client,
+                    &key,
+                    &|db| {
                     if dbs.is_primary() {
                         db.resolve_conflit(
                             Change {
@@ -684,8 +689,14 @@ fn process_request_obj(request: &Request, dbs: &Arc<Databases>, client: &mut Cli
                         );
                         Response::Ok {}
                     }
-                });
+                    },
+                    PermissionKind::Write,
+                )
             };
+            // A refused resolve must not be replicated either
+            if let Response::Error { msg } = response {
+                return Response::Error { msg };
+            }
             return Response::Ok {};
         }
         Request::ListCommands {} => apply_if_auth(&client.auth, &|| {
